@@ -104,6 +104,25 @@ P14 == E("P14", "pets",
             dInl("Subscription", <<dF("petAdded", <<>>, <<dF("name", <<dA("upper", VB(TRUE))>>, <<>>), dLf("__typename")>>)>>)>>), <<>>),
   <<<<>>>>)
 
+\* variables referenced ONLY inside list literals (argument, nested in an object literal)
+P15 == E("P15", "pets",
+  dQV(<<dVar("first", NN(Ty("ID")), Absent), dVar("second", NN(Ty("ID")), Absent), dVar("t", NN(Ty("String")), Absent)>>,
+      <<dF("search", <<dA("f", VO(<<"minAge", "ids">>, <<VI(1), VL(<<VVar("first"), VVar("second")>>)>>)), dA("tags", VL(<<VVar("t")>>))>>, <<dLf("id")>>)>>),
+  << <<V("first", VS("1")), V("second", VI(2)), V("t", VS("x"))>> >>)
+
+\* variables as arguments of a custom directive; one of them is called like a canonical name
+P16 == E("P16", "pets",
+  dQV(<<dVar("lab", NN(Ty("String")), Absent), dVar("id", NN(Ty("ID")), Absent), dVar("a", Ty("Int"), Absent)>>,
+      <<dFD("pet", <<dA("id", VVar("id"))>>, <<dDir("tag", <<dA("label", VVar("lab")), dA("prio", VVar("a"))>>)>>,
+            <<dLf("name"), dFD("id", <<>>, <<dDir("rep", <<dA("n", VVar("a"))>>)>>, <<>>)>>)>>),
+  << <<V("lab", VS("L")), V("id", VS("7")), V("a", VI(3))>>, <<V("lab", VS("M")), V("id", VI(8))>> >>)
+
+\* the object type that is unrelated to every abstract type
+P17 == E("P17", "pets",
+  dQ(<<dF("ant", <<>>, <<dLf("legs"), dLf("name")>>), dF("pet", <<dA("id", VS("1"))>>, <<dLf("name"), dInl("Cat", <<dLf("nick")>>)>>),
+       dF("any", <<>>, <<dInl("Cat", <<dLf("nick")>>)>>)>>),
+  <<<<>>>>)
+
 ----------------------------------------------------------------------------
 \* S2 "args"
 A1 == E("A1", "args",
@@ -186,6 +205,25 @@ A10 == E("A10", "args",
        dF("i", <<dA("x", VI(1))>>, <<>>), dFA("i2", "i", <<dA("x", VI(1))>>, <<>>), dFA("f1", "f", <<dA("x", VI(1))>>, <<>>)>>),
   <<<<>>>>)
 
+\* variables referenced ONLY inside list literals: argument, nested list, inside an object literal, directive argument
+A11 == E("A11", "args",
+  dQV(<<dVar("p", NN(Ty("Int")), Absent), dVar("q", Ty("Int"), Absent), dVar("r", Ty("Int"), Absent)>>,
+      <<dF("li", <<dA("x", VL(<<VVar("p"), VVar("q")>>))>>, <<>>),
+        dF("o", <<dA("x", VO(<<"a", "c">>, <<VI(1), VL(<<VVar("p")>>)>>))>>, <<>>),
+        dF("lli", <<dA("x", VL(<<VL(<<VVar("q")>>)>>))>>, <<>>),
+        dFD("i", <<>>, <<dDir("lim", <<dA("xs", VL(<<VVar("r"), VI(1)>>))>>)>>, <<>>)>>),
+  << <<V("p", VI(1)), V("q", VI(2)), V("r", VI(3))>>, <<V("p", VI(5)), V("q", VNull)>> >>)
+
+\* lists of (nullable) input objects with null items before objects that omit defaulted fields; rows of a nested list
+A12 == E("A12", "args",
+  dQV(<<dVar("v", Ls(Ty("In")), Absent), dVar("w", Ls(Ls(Ty("In"))), Absent)>>,
+      <<dF("lon", <<dA("x", VVar("v"))>>, <<>>), dF("llo", <<dA("x", VVar("w"))>>, <<>>),
+        dFA("l2", "lon", <<dA("x", VL(<<VNull, VO(<<"a">>, <<VI(1)>>)>>))>>, <<>>),
+        dFA("l3", "llo", <<dA("x", VL(<<VNull, VL(<<VNull, VO(<<"a">>, <<VI(2)>>)>>)>>))>>, <<>>)>>),
+  << <<V("v", VL(<<VNull, VO(<<"a">>, <<VI(1)>>)>>)), V("w", VL(<<VNull, VL(<<VNull, VO(<<"a">>, <<VI(2)>>)>>)>>))>>,
+     <<V("v", VL(<<VO(<<"a">>, <<VI(1)>>), VNull, VO(<<"a", "b">>, <<VI(2), VS("x")>>)>>)), V("w", VL(<<VL(<<VO(<<"a">>, <<VI(1)>>)>>), VNull>>))>>,
+     <<V("v", VNull)>> >>)
+
 ----------------------------------------------------------------------------
 \* S3 "nest"
 N1 == E("N1", "nest",
@@ -223,7 +261,7 @@ N6 == E("N6", "nest",
        dFD("maybe", <<>>, <<Skip(VB(FALSE))>>, <<dLf("id"), dInlD("Doc", <<Incl(VB(FALSE))>>, <<dLf("url")>>)>>)>>),
   <<<<>>>>)
 
-Corpus == <<P1, P2, P3, P4, P5, P6, P7, P8, P9, P10, P11, P12, P13, P14,
-            A1, A2, A3, A4, A5, A6, A7, A8, A9, A10,
+Corpus == <<P1, P2, P3, P4, P5, P6, P7, P8, P9, P10, P11, P12, P13, P14, P15, P16, P17,
+            A1, A2, A3, A4, A5, A6, A7, A8, A9, A10, A11, A12,
             N1, N2, N3, N4, N5, N6>>
 =============================================================================
